@@ -5,6 +5,8 @@ CONSTANTS
   Values = {"A", "B"}
   MaxRound = 3
   MaxCrash = 2
+  MidCrash = TRUE
+  SendBeforeSync = FALSE
   FixWal = TRUE
   Order <- OrderDef
 INVARIANTS Agreement CommitHasQuorum ValidLock
